@@ -1919,6 +1919,8 @@ class Interp:
             return r
         if hasattr(cls, "pyvc_instancecheck"):
             return cls.pyvc_instancecheck(self, obj)
+        if hasattr(obj, "pyvc_isinstance"):
+            return obj.pyvc_isinstance(self, cls)
         if isinstance(cls, ClassValue):
             if isinstance(obj, LocalObj):
                 return obj.cls.issubclass(cls)
